@@ -813,8 +813,11 @@ func (vm *VirtualMachine) pop() object.Object {
 }
 
 func (vm *VirtualMachine) push(obj object.Object) {
+	// Store before moving the stack pointer: when the stack is full the store
+	// panics and sp still indexes the array, so that the code that cleans up
+	// after the failed run (unwindFrame, clearStack, TOS) can rely on it.
+	vm.stack[vm.sp+1] = obj
 	vm.sp++
-	vm.stack[vm.sp] = obj
 }
 
 func (vm *VirtualMachine) swap(pos int) {
